@@ -237,6 +237,24 @@ def T2(n=2):
     return s
 
 
+def T2c(n=2):
+    """two usage patterns in different countries (each with its own device) sharing one journey and one network"""
+    s = T2(n)
+    s["countries"]["de"] = {"tz": "Europe/Berlin"}
+    s["devices"]["dev2"] = {}
+    s["patterns"]["up2"]["country"] = "de"
+    s["patterns"]["up2"]["devices"] = ["dev2"]
+    return s
+
+
+def T1e(n=2):
+    """T1 with a second, empty step (no job) in the journey"""
+    s = T1(n)
+    s["steps"]["step_empty"] = {"jobs": []}
+    s["journeys"]["uj"]["steps"] = ["step", "step_empty"]
+    return s
+
+
 def T3(n=2, tz2="Asia/Kuala_Lumpur"):
     """two patterns, two journeys sharing one step (job shared), two networks, two countries in different zones"""
     s = T1(n)
@@ -313,7 +331,7 @@ def T9(n=2):
     return s
 
 
-SKELETONS = {"T9": T9, "T1": T1, "T2": T2, "T3": T3, "T4": T4, "T5": T5, "T7": T7, "T8": T8}
+SKELETONS = {"T9": T9, "T2c": T2c, "T1e": T1e, "T1": T1, "T2": T2, "T3": T3, "T4": T4, "T5": T5, "T7": T7, "T8": T8}
 
 
 def spec_copy(spec):
